@@ -301,10 +301,13 @@ pub fn run(opts: &Opts) -> Report {
 /// to interleave is not controlled, so this can miss, but it cannot raise a false alarm on a library whose readers
 /// are independent.
 #[derive(Clone)]
-enum SOp { Find(usize, String), NoCase(usize, String), Seq(usize, Vec<String>), Text(usize, usize, usize), Query(String), Json, AnnText(String), Related(String), Regex(usize, String), Split(usize) }
+enum SOp { WebAnno(String, bool), Validate(String), SubQuery(String), Find(usize, String), NoCase(usize, String), Seq(usize, Vec<String>), Text(usize, usize, usize), Query(String), Json, AnnText(String), Related(String), Regex(usize, String), Split(usize) }
 
 fn sop_name(op: &SOp) -> String {
     match op {
+        SOp::WebAnno(a, t) => format!("to_webannotation of {}{}", a, if *t { " with an extra-target template" } else { "" }),
+        SOp::Validate(a) => format!("validate_text of {}", a),
+        SOp::SubQuery(q) => q.clone(),
         SOp::Find(r, w) => format!("find_text({:?}) in resource {}", w, r),
         SOp::NoCase(r, w) => format!("find_text_nocase({:?}) in resource {}", w, r),
         SOp::Seq(r, f) => format!("find_text_sequence({:?}, case-insensitive) in resource {}", f, r),
@@ -321,6 +324,9 @@ fn sop_name(op: &SOp) -> String {
 fn sop_run(store: &AnnotationStore, op: &SOp) -> String {
     let res = |k: &usize| store.resource(format!("big{}", k).as_str()).expect("resource");
     match op {
+        SOp::WebAnno(id, t) => { let cfg = WebAnnoConfig { auto_generated: false, extra_target_template: if *t { Some("{resource}/{begin}/{end}".to_string()) } else { None }, ..Default::default() }; store.annotation(id.as_str()).map(|a| a.to_webannotation(&cfg)).unwrap_or_default() }
+        SOp::Validate(id) => store.annotation(id.as_str()).map(|a| format!("{:?}", a.validate_text())).unwrap_or_default(),
+        SOp::SubQuery(q) => match Query::try_from(q.as_str()).and_then(|q| store.query(q)) { Ok(it) => format!("{:?}", it.map(|row| row.iter().map(|x| match x { QueryResultItem::Annotation(a) => a.handle().as_usize(), QueryResultItem::TextSelection(t) => t.begin(), _ => 0 }).collect::<Vec<_>>()).collect::<Vec<_>>()), Err(e) => format!("error {}", e) },
         SOp::Find(r, w) => format!("{:?}", res(r).find_text(w).map(|t| (t.begin(), t.end())).collect::<Vec<_>>()),
         SOp::NoCase(r, w) => format!("{:?}", res(r).find_text_nocase(w).map(|t| (t.begin(), t.end(), t.text().to_string())).collect::<Vec<_>>()),
         SOp::Seq(r, f) => { let fr: Vec<&str> = f.iter().map(|x| x.as_str()).collect(); format!("{:?}", res(r).find_text_sequence(&fr, |c| !c.is_alphanumeric(), false).map(|v| v.iter().map(|t| (t.begin(), t.end())).collect::<Vec<_>>())) }
@@ -354,11 +360,20 @@ fn stress(rep: &mut Report, opts: &Opts) {
             if i % 6 == 0 && pos >= 2 { ex.store.annotate(AnnotationBuilder::new().with_id(format!("o{}_{}", k, i)).with_target(SelectorBuilder::textselector(format!("big{}", k), Offset::simple(pos - 2, pos + 2))).with_data("s", "o", "x")).ok(); }
             pos += n + sep;
         }
+        // an annotation with a complex target (three words of this resource)
+        let starts: Vec<(usize, usize)> = { let mut p = 0usize; w.iter().map(|x| { let n = x.chars().count(); let r = (p, p + n); p += n + sep; r }).collect() };
+        ex.store.annotate(AnnotationBuilder::new().with_id(format!("cx{}", k)).with_target(SelectorBuilder::compositeselector(vec![SelectorBuilder::textselector(format!("big{}", k), Offset::simple(starts[1].0, starts[1].1)), SelectorBuilder::textselector(format!("big{}", k), Offset::simple(starts[4].0, starts[4].1)), SelectorBuilder::textselector(format!("big{}", k), Offset::simple(starts[7].0, starts[7].1))])).with_data("s", "c", "x")).ok();
         words.push(w);
     }
+    // validation information for every annotation (written before the store is shared)
+    let _ = ex.store.protect_text(TextValidationMode::Auto);
     let store = Arc::new(ex.store);
     let mut ops: Vec<SOp> = vec![SOp::Json, SOp::Query("SELECT ANNOTATION ?a WHERE DATA \"s\" \"k\" = 2;".into()), SOp::Query("SELECT TEXT ?t WHERE RESOURCE \"big0\"; DATA \"s\" \"k\" > 1;".into())];
+    ops.push(SOp::SubQuery("SELECT ANNOTATION ?a WHERE DATA \"s\" \"k\" = 2; { SELECT ANNOTATION ?o WHERE RELATION ?a OVERLAPS; DATA \"s\" \"o\" = \"x\"; }".into()));
+    ops.push(SOp::SubQuery("SELECT RESOURCE ?r; { SELECT ANNOTATION ?c WHERE RESOURCE ?r; DATA \"s\" \"c\" = \"x\"; }".into()));
     for k in 0..nres {
+        for t in [false, true] { ops.push(SOp::WebAnno(format!("cx{}", k), t)); ops.push(SOp::WebAnno(format!("a{}_0", k), t)); ops.push(SOp::WebAnno(format!("o{}_6", k), t)); }
+        ops.push(SOp::Validate(format!("cx{}", k))); ops.push(SOp::Validate(format!("a{}_3", k)));
         ops.push(SOp::Split(k));
         ops.push(SOp::Regex(k, if k == 0 { "w\u{f6}rd[0-9]+".into() } else { "Need[0-9]+le".into() }));
         ops.push(SOp::Regex(k, "\u{e9} ".into()));
@@ -385,7 +400,7 @@ fn stress(rep: &mut Report, opts: &Opts) {
         let (store, ops, alone, mismatch) = (store.clone(), ops.clone(), alone.clone(), mismatch.clone());
         handles.push(std::thread::spawn(move || {
             // threads 0-2 walk all operations in different orders; threads 3-5 stay on the operations of one resource
-            let mine: Vec<usize> = (0..ops.len()).filter(|i| t < 3 || match &ops[*i] { SOp::Find(r, _) | SOp::NoCase(r, _) | SOp::Seq(r, _) | SOp::Text(r, _, _) | SOp::Regex(r, _) | SOp::Split(r) => *r == t - 3, SOp::Query(q) => q.contains(&format!("big{}", t - 3)), _ => false }).collect();
+            let mine: Vec<usize> = (0..ops.len()).filter(|i| t < 3 || match &ops[*i] { SOp::Find(r, _) | SOp::NoCase(r, _) | SOp::Seq(r, _) | SOp::Text(r, _, _) | SOp::Regex(r, _) | SOp::Split(r) => *r == t - 3, SOp::Query(q) => q.contains(&format!("big{}", t - 3)), SOp::WebAnno(a, _) | SOp::Validate(a) => a.contains(&format!("{}", t - 3)), _ => false }).collect();
             let r = std::panic::catch_unwind(std::panic::AssertUnwindSafe(|| {
                 for round in 0..rounds * (if t < 3 { 1 } else { 3 }) {
                     for k in 0..mine.len() {
